@@ -96,6 +96,11 @@ def misc_program(rng, far=False):
                 body.append({'k': 'pseudo', 'm': m, 'ops': [{'r': rng.choice([1, 5, 6, 8, 31, 0, 2])}]})
             else:
                 body.append({'k': 'pseudo', 'm': m, 'ops': []})
+    for _ in range(4):
+        # li whose operand is a label expression (documented: `li t0 %position(label, ADDR)`); forward and backward
+        e = rng.choice([{'lab': rng.choice(labels)}, {'pos': [rng.choice(labels), {'i': rng.choice([0x08000000, 0x20000000, 0x7ffff800])}]},
+                        {'sum': [{'lab': rng.choice(labels)}, rng.choice([4, 0x1000])]}])
+        body.append({'k': 'pseudo', 'm': 'li', 'ops': [R(), e]})
     rng.shuffle(body)
     half = len(body) // 2
     items += body[:half] + [{'k': 'label', 'name': 'B'}] + body[half:] + [{'k': 'label', 'name': 'C'}, {'k': 'pseudo', 'm': 'ret', 'ops': []}]
@@ -134,7 +139,12 @@ def run_case(asm, acc, case):
         items = li_program(rng, case.get('n', 200))
         lines = li_render(rng, items)
     else:
-        items = misc_program(rng, far=case['kind'] == 'far')
+        if case['kind'] == 'far' and case['idx'] % 2 == 0:
+            # several far call / tail expansions first, then shrinking pseudo-instructions that carry a label, then transfers to them
+            from . import c03
+            items = c03.far_family(rng)
+        else:
+            items = misc_program(rng, far=case['kind'] == 'far')
         if case['idx'] % 2:
             # documented spelling freedoms (numeric / xN / ABI register names, separators, comments): same structure
             from . import c13
@@ -168,7 +178,7 @@ def run_shard(sh, deadline):
 
 def plan(tier, seed):
     cases = []
-    nli, nmisc, nfar = (320, 400, 48) if tier == 'quick' else (20000, 20000, 1000)
+    nli, nmisc, nfar = (320, 400, 96) if tier == 'quick' else (20000, 20000, 2000)
     cases += [{'kind': 'li', 'seed': seed, 'idx': i} for i in range(nli)]
     cases += [{'kind': 'misc', 'seed': seed, 'idx': i} for i in range(nmisc)]
     cases += [{'kind': 'far', 'seed': seed, 'idx': i} for i in range(nfar)]
